@@ -4,6 +4,8 @@ from contracts import core as K
 from contracts import formulas as F
 
 from contracts import wrappers as W
+from contracts import formulas as F_DEP
+from contracts import core as K_DEP
 ID = "C05"
 LEVEL = "other"
 TRUSTED = ["A1 real arithmetic", "A2 numpy.interp(left=nan,right=nan), element-wise ufuncs, complex sqrt principal branch",
@@ -16,7 +18,7 @@ EXPLANATION = ("Deductive: xray_wavelength/xray_energy (E*lambda == hc 1e7, roun
 
 
 def units(tier):
-    return (([A.U_XWAVELENGTH, A.U_XENERGY, A.U_XROUNDTRIP] + A.U_SCATTERING_FACTORS + A.U_XRAY_SLD + A.U_INDEX_OF_REFRACTION + A.U_FXRAY_KEYS + [F.U_FORMULA_XRAY_SLD, K.L_REGISTRATION]) + [W.U_PKG[5], W.U_FROM_ATOMS[1], A.U_FXRAYATQ, A.U_XRAY_F0, A.U_XRAY_ELEMENT_SYMBOL, A.U_XRAY_SLD_METHOD]) + F.U_FORMULA_OF_FORMULA + F.U_INIT
+    return (([A.U_XWAVELENGTH, A.U_XENERGY, A.U_XROUNDTRIP] + A.U_SCATTERING_FACTORS + A.U_XRAY_SLD + A.U_INDEX_OF_REFRACTION + A.U_FXRAY_KEYS + [F.U_FORMULA_XRAY_SLD, K.L_REGISTRATION]) + [W.U_PKG[5], W.U_FROM_ATOMS[1], A.U_FXRAYATQ, A.U_XRAY_F0, A.U_XRAY_ELEMENT_SYMBOL, A.U_XRAY_SLD_METHOD]) + F.U_FORMULA_OF_FORMULA + F.U_INIT + ([K_DEP.L_ATOM_IDENTITY] + [F_DEP.U_COUNT_ATOMS, F_DEP.U_ATOMS])
 
 
 def runner_tasks(tier):
@@ -24,7 +26,8 @@ def runner_tasks(tier):
             {"module": "c05", "task": "f0", "kind": "eval", "clause": "f0 coefficients and limits, all 211 entries"},
             {"module": "c05", "task": "sld", "kind": "bounded", "clause": "compound SLD, relations, reflectivity"},
             {"module": "c09", "task": "steps", "name": "first-touch steps", "kind": "eval", "arg": {"groups": ["xray"]}, "clause": "every first touch of the x-ray data serves the canonical data", "timeout": 1500},
-            {"module": "stateful", "task": "C05", "name": "stateful C05", "kind": "bounded", "clause": "energy / wavelength / Q in every numeric type and array layout; f0 of tabulated atoms unchanged after requests for ions without coefficients"}]
+            {"module": "stateful", "task": "C05", "name": "stateful C05", "kind": "bounded", "clause": "energy / wavelength / Q in every numeric type and array layout; f0 of tabulated atoms unchanged after requests for ions without coefficients"},
+            {"module": "independence", "task": "observations", "name": "independence", "kind": "bounded", "arg": {"tags": ["C05"]}, "clause": "fixed observations give the same value as the first use of the library in a fresh interpreter, in a warmed-up interpreter (twice) and in reverse order, and have their documented value", "timeout": 900}]
 
 
 REPLAY = {"module": "c05", "task": "replay"}
